@@ -157,6 +157,9 @@ func genC20(t *rapid.T) *C20Case {
 		c.ParentHidden = rapid.Bool().Draw(t, "parentHidden")
 	}
 	c.HelpFlag = rapid.IntRange(0, 2).Draw(t, "helpFlag") == 0
+	if c.HasArg && rapid.IntRange(0, 9).Draw(t, "wordOfLength") == 0 {
+		c.Word = strings.Repeat(string(rapid.SampledFrom(c20Alphabet).Draw(t, "fill")), uniformInt(t, "wordLen", 141))
+	}
 	if c.HasArg && rapid.IntRange(0, 11).Draw(t, "helpWord") == 0 {
 		c.Word = rapid.SampledFrom([]string{"help", "Help", "hel", "helps"}).Draw(t, "helpWordText")
 	}
